@@ -321,9 +321,38 @@ def check_acos(ctx, res, fi: FunctionInfo, rule: str) -> int:
     n = 0
     asg = assigned_names(fi.node)
     for c in walk_local(fi.node):
+        if isinstance(c, ast.Call) and len(c.args) == 2 and txt(c.func) in ("math.atan2", "atan2"):
+            n += 1
+            res.ob(rule, fi.where(c), "%s: atan2(...)" % fi.short, True, "two-argument arctangent is total (defined for every pair but (0, 0))")
+            continue
         if not (isinstance(c, ast.Call) and len(c.args) == 1):
             continue
         name = txt(c.func)
+        if name in ("math.atan", "atan"):
+            # atan is total, but a quotient inside it is not: a denominator built from a SUM or DIFFERENCE of the operand
+            # vectors vanishes for (anti-)parallel operands -- the two-argument atan2(y, x) is the total form
+            n += 1
+            arg = expand_locals(fi.node, c.args[0], fi.params)
+            bad = None
+            for d in ast.walk(arg):
+                if isinstance(d, ast.BinOp) and isinstance(d.op, ast.Div):
+                    for x in ast.walk(d.right):
+                        if isinstance(x, ast.BinOp) and isinstance(x.op, (ast.Add, ast.Sub)) and not (
+                                const_num(x.left) is not None or const_num(x.right) is not None):
+                            bad = (d, x)
+            ok = bad is None
+            res.ob(rule, fi.where(c), "%s: %s(...)" % (fi.short, name), ok,
+                   "no quotient whose denominator is a sum / difference of the operands" if ok else
+                   "denominator `%s` vanishes when `%s` cancels" % (txt(bad[0].right)[:40], txt(bad[1])[:30]))
+            if not ok:
+                res.violation(rule, fi, c,
+                              "%s is applied to a quotient whose denominator `%s` contains `%s`: for exactly parallel or anti-parallel "
+                              "operands the two terms cancel and the division raises ZeroDivisionError instead of returning 0 or pi "
+                              "(atan2(numerator, denominator) is total)" % (name, txt(bad[0].right)[:50], txt(bad[1])[:40]),
+                              construct="%s: %s of a quotient with a cancelling denominator" % (fi.short, name))
+            continue
+        if name in ("math.atan2", "atan2") and len(c.args) == 1:
+            continue
         if name not in ("math.acos", "math.asin", "acos", "asin"):
             continue
         n += 1
